@@ -41,6 +41,21 @@ def setup(chk, configs=None, docs=None):
         else:
             chk.violation('the code pilota-build emits for the corpus cannot be built and run (%s): %s' % (gb.stage, gb.error[:400]),
                           dict(kind=kind, stage=gb.stage, output=gb.error, repo=core.REPO), no_input=True)
+    if gb.ok:
+        chk.cov['argument_types'] = dict(compared=sum(1 for cfg in gb.configs if 'keep' in cfg for n in gb.schema.names_in(cfg)
+                                                      if gb.schema.types[n]['kind'] == 'struct' and 'k' not in gb.schema.types[n]['flags']),
+                                         model=sum(1 for n, d in gb.schema.types.items() if d['kind'] == 'struct' and 'a' in d['flags'] and 'k' not in d['flags']),
+                                         mismatches=[list(x) for x in gb.arg_mismatch[:10]])
+        if gb.arg_mismatch:
+            cfg, n, side = gb.arg_mismatch[0]
+            doc = (gb.schema.docs or {}).get(n.split('.')[0])
+            chk.violation('the argument types of the generator differ from the model\'s is_arg (%d types): in the %s build struct %s %s'
+                          % (len(gb.arg_mismatch), cfg, n,
+                             'is decoded as an ARGUMENT type (its emitted decoder counts the declared fields down and takes the rest of the '
+                             'input as unknown fields) although no method names it as a parameter or result type' if side == 'generator' else
+                             'is a parameter / result type of a method but its emitted decoder is the ordinary one'),
+                          dict(kind='argument-types', mismatches=[list(x) for x in gb.arg_mismatch[:20]], document=doc.name if doc else None,
+                               idl=gengen.doc_idl(doc) if doc else None, repo=core.REPO), no_input=True)
     chk.cov['trusted_base'] = (chk.cov.get('trusted_base') or []) + [t for t in TRUSTED if t not in (chk.cov.get('trusted_base') or [])]
     return gb
 
